@@ -26,7 +26,7 @@
 //! joined by `+`, names and keys sorted by their bytes.  Empty list = `-` (reference lists: empty).
 //!
 //! `Amount`'s fields are crate-private: they are read from the record's `Debug` rendering (parsed, with
-//! Rust's string escapes undone) and cross-checked through the public `combine_ingredients` on a singleton
+//! Rust's string escapes undone); the value is cross-checked through the public `combine_ingredients` on a singleton
 //! (`READERR` is printed if the two readings differ).
 use cooklang::quantity::{Number, Quantity, Value as CValue};
 use cooklang::{Content, CooklangParser, Item as CItem};
@@ -324,8 +324,10 @@ fn amount(a: &Option<Amount>) -> String {
     let ok = match guarded(|| combine_ingredients(&single)) {
         Ok(l) => match l.get("") {
             Some(g) if g.len() == 1 && l.len() == 1 => {
-                let (k, gv) = g.iter().next().unwrap();
-                same_value(gv, &v) && k.name == u.clone().unwrap_or_default()
+                // only the value is cross-checked: the key's unit string is what the combine clause of the
+                // property judges (checks/c19.py), it must not be pre-empted here as a reading error
+                let (_, gv) = g.iter().next().unwrap();
+                same_value(gv, &v)
             }
             _ => false,
         },
